@@ -34,7 +34,9 @@ SVG_TAG_NAMES = sorted(n for n in dir(ht.svg) if not n.startswith("_") and calla
                        and getattr(getattr(ht.svg, n), "__module__", "") == "htmltools.svg")
 
 CUSTOM_NAMES = ["x-y", "my-element", "a1", "H7", "Foo", "x-y:z", "svg:rect", "ns:tag-1", "custom.el", "T_t", "styled-button", "script-editor",
-                "stylesheet", "scripts", "brx", "input-group", "linked"]
+                "stylesheet", "scripts", "brx", "input-group", "linked",
+                # a prefix in front of / a suffix behind a void or raw-text name makes another, ordinary element
+                "atom:link", "x:br", "my:input", "media:embed", "svg:img", "xhtml:meta", "br:x", "img.big", "x:script", "svg:style", "hr-", "x-hr"]
 BLOCK_NAMES = ["div", "p", "section", "ul", "li", "h1", "table", "tr", "td", "form", "nav", "blockquote"]
 INLINE_NAMES = ["span", "a", "b", "i", "em", "strong", "code", "small", "sub", "label", "q", "kbd"]
 
